@@ -113,6 +113,22 @@ func check(prop, tier, only string, jobs int) int {
 				kf = k
 			}
 		}
+		if !o.confirmed() && o.c.label == "use-after-release" && nerr == nil {
+			// a buffer used after it went back to the process-wide pool is only observable when another goroutine takes
+			// it in between: the replay is the harness's native concurrent driver under the race detector
+			driver := "VerifN_" + strings.TrimPrefix(o.c.harness, "VerifH_")
+			if hasFunc(p, o.c.harness, driver) {
+				reports, err := nativeRaceRunFn(p, o.c.harness, driver)
+				if err != nil {
+					problems = append(problems, "concurrent replay: "+err.Error())
+					continue
+				}
+				if len(reports) > 0 {
+					o.got, o.crash = "panic", "concurrent replay: "+strings.Join(strings.Fields(firstLines(reports[0], 12)), " ")
+					o.forceConfirmed = true
+				}
+			}
+		}
 		if !o.confirmed() {
 			if nerr == nil {
 				problems = append(problems, fmt.Sprintf("counterexample for %s/%s did not reproduce on the real build (expected %q, got %q %s): encoding mismatch", o.c.harness, o.c.label, o.c.want, o.got, o.crash))
@@ -353,4 +369,17 @@ func writeEvidence(path, prop, tier string, seed int64, p *interp.Program, runs 
 	}
 	b, _ := json.MarshalIndent(ev, "", " ")
 	os.WriteFile(path, b, 0o644)
+}
+
+func hasFunc(p *interp.Program, harness, fn string) bool {
+	h := p.Harness[harness]
+	return h != nil && h.Pkg != nil && h.Pkg.Func(fn) != nil
+}
+
+func firstLines(s string, n int) string {
+	ls := strings.Split(s, "\n")
+	if len(ls) > n {
+		ls = ls[:n]
+	}
+	return strings.Join(ls, "\n")
 }
